@@ -616,8 +616,35 @@ func CheckParallel(r *Run) []Finding {
 	return out
 }
 
+// CheckRace is the reduced oracle of the race flavour: the race detector is
+// the judge; here only values that must be visible without further
+// synchronisation are compared.
+func CheckRace(r *Run) []Finding {
+	e, s, scn := r.Env, r.Env.Spec, r.Env.Scn
+	if r.Panicked != nil {
+		return []Finding{{"C04", fmt.Sprintf("a panic propagated out of the directive: %v", r.Panicked)}}
+	}
+	if s.Kind != "flow" || r.Err != nil || scn.CancelK != CNone {
+		return nil
+	}
+	m := interpretFlow(s, scn, e)
+	if len(m.hard) > 0 {
+		return nil
+	}
+	var out []Finding
+	for k := range s.Results {
+		if got, ok := e.Results[k]; ok && got != m.results[k] {
+			out = append(out, Finding{"C12", fmt.Sprintf("the flow returned nil but Results target %d holds tag %d instead of %d: a task's value was not visible to the reader of Results", k, got, m.results[k])})
+		}
+	}
+	return out
+}
+
 // Check dispatches on the directive kind.
 func Check(r *Run) []Finding {
+	if r.Env.Race {
+		return CheckRace(r)
+	}
 	if r.Env.Spec.Kind == "flow" {
 		return CheckFlow(r)
 	}
